@@ -493,12 +493,22 @@ func c18RegexFacts(p string) string {
 	}
 	re := regexp.MustCompile(p)
 	for i := 0; i < 3; i++ {
-		ex, o := lib.SafeVal(regex.New("@T", tok, regex.WithGeneratorSeed(int64(i))).Example)
+		rxi := regex.New("@T", tok, regex.WithGeneratorSeed(int64(i)))
+		ex, o := lib.SafeVal(rxi.Example)
 		if !o.OK {
 			return "Example(): " + o.Verdict()
 		}
 		if !re.Match(ex) {
 			return fmt.Sprintf("Example()=%q does not match", ex)
+		}
+		// the returned bytes are the caller's: overwriting them must not change the next example
+		first := string(ex)
+		for j := range ex {
+			ex[j] = 0
+		}
+		ex2, o2 := lib.SafeVal(rxi.Example)
+		if !o2.OK || string(ex2) != first {
+			return fmt.Sprintf("Example()=%q after the caller overwrote the bytes of the first result %q", ex2, first)
 		}
 	}
 	return "ok"
